@@ -260,6 +260,10 @@ def check(ix, rep):
     from sa.rules import ownrule as _own
     _nown = _own.run(ix, rep)
     rep.floor('functions in the ownership analysis', _nown, 250)
+    # position t of the result is computed from positions of the operands: the data set reaches the handlers as supplied, not rebuilt along the time
+    # column (merging samples with equal time-stamps lets a later sample replace the value at an earlier position)
+    from sa.rules import pure as _pure16
+    _pure16.time_taint_offline(ix, rep, {m.kind: m for m in M.standard_monitors(ix)}['discrete-offline'])
     explanation = __doc__.split('\n\n', 1)[1].strip().replace('\n', ' ')
     assumptions = ['hand lemma: composition of footprints along the nesting of a formula (sum of the reaches of nested future operators = the horizon of the property)',
                    'dense time: decided as "the hold-to-infinity of the last sample cannot reach the settled region" (merge kernel contract, forward scans, influence intervals of the sliding-window kernels); the stack invariant of the kernels is a hand lemma (C04)',
